@@ -226,7 +226,36 @@ fn gen_clvm(s: &mut Src, depth: u32, out: &mut Vec<u8>) {
         gen_clvm(s, depth + 1, out);
         return;
     }
-    match s.weighted(&[90, 90, 60, 30, 1]) {
+    match s.weighted(&[90, 90, 60, 30, 1, 6]) {
+        5 => {
+            // a valid but NON-MINIMAL atom encoding, as a foreign serializer may
+            // emit it (the streamable parser, consensus and from_json_dict accept
+            // it, and a Program keeps its bytes as they are): a one-byte atom below
+            // 0x80 behind a length prefix, a short atom behind a two-byte prefix,
+            // the empty atom behind a two-byte prefix
+            match s.below(3) {
+                0 => {
+                    out.push(0x81);
+                    out.push(s.u8() & 0x7f);
+                }
+                1 => {
+                    let n = 1 + s.below(20);
+                    out.push(0xc0);
+                    out.push(n as u8);
+                    let mut b = gen_bytes(s, n);
+                    for x in &mut b {
+                        if *x == 0xfe {
+                            *x = 0x7e;
+                        }
+                    }
+                    out.extend_from_slice(&b);
+                }
+                _ => {
+                    out.push(0xc0);
+                    out.push(0x00);
+                }
+            }
+        }
         4 => {
             // rarely: a large atom (two- or three-byte length prefix)
             let n = big_len(s);
